@@ -85,6 +85,13 @@ def nc_style(rng, inp):
     # every on-disk flavour of NetCDF the library writes (HDF5-based, classic, 64-bit offset, CDF-5)
     fmt_ = rng.choice(["NETCDF4", "NETCDF4", "NETCDF4_CLASSIC", "NETCDF3_CLASSIC", "NETCDF3_64BIT_OFFSET", "NETCDF3_64BIT_DATA"])
     unset = rng.randint(0, len(inp["times"])) if rng.random() < 0.15 else None
+    # the threshold / quantile coordinates need not be stored ascending (cdf / x columns stored in the same order)
+    r2 = random.Random("tq|%s|%s|%s|%s" % (order, inp["thresholds"], inp["quantiles"], len(inp["cells"])))
+    for k, n in (("threshold", len(inp["thresholds"])), ("quantile", len(inp["quantiles"]))):
+        order[k] = list(range(n))
+        if n > 1 and r2.random() < 0.6:
+            while order[k] == list(range(n)):
+                r2.shuffle(order[k])
     return {"format": fmt_, "unset_time_slot": unset, "enc": rng.sample(gen.NC_MISSING_ENC, rng.randint(1, 4)), "order": order, "vars": vars_,
             "time_type": "i4" if (fits and rng.random() < 0.5) else "f8", "shuffled": shuffled}
 
@@ -236,6 +243,8 @@ def run_pair(desc, ctx):
         tpath = gen.write_text(tinp, os.path.join(d, "d.txt"), rng)
         npath = gen.write_nc(ninp, os.path.join(d, "d.nc"), rng)
         case = {"inp": inp, "nc_style": st}
+        if any(st["order"].get(k) not in (None, sorted(st["order"].get(k) or [])) for k in ("threshold", "quantile")):
+            ctx.count("files_with_unsorted_threshold_or_quantile_coordinate")
         opt = sorted(k for k, v in st["vars"].items() if v) + (["cdf"] if inp["thresholds"] else []) + \
             (["x"] if inp["quantiles"] else []) + (["ensemble"] if inp["members"] else []) + \
             (["pit"] if "pit" in inp["has"] else []) + list(inp["others"])
